@@ -385,3 +385,5 @@ func BVShlSym(x, n BV) BV {
 	}
 	return mkBV(new(big.Int).Lsh(x.v, uint(n.v.Int64())), x.w)
 }
+
+func MutexHeld(m interface{}) bool { return false }
